@@ -6,6 +6,7 @@ import (
 	"go/ast"
 	"go/parser"
 	"go/token"
+	"go/types"
 	"path/filepath"
 	"sort"
 	"strings"
@@ -646,8 +647,59 @@ func genSkeleton() string {
 	b.WriteString("def slotUses : List (String × List (Nat × String)) := [\n  " + strings.Join(genSlotUses(), ",\n  ") + "\n]\n")
 	b.WriteString("\n/-- every function of /repo (tests aside) that calls `Flush()` — `obj.Log.Flush`, which flushes up to the\n    log position the journal REMEMBERS (reset by a refused transaction) -/\n")
 	b.WriteString("def flushCallers : List String := [" + strings.Join(genFlushCallers(), ", ") + "]\n")
+	b.WriteString("\n/-- every journal object the file-system layer reads or overwrites: (package.function, `ReadBuf` / `OverWrite`,\n    the size argument in bits as written in the source), in source order -/\n")
+	b.WriteString("def journalObjects : List (String × String × String) := [\n  " + strings.Join(genJournalObjects(), ",\n  ") + "\n]\n")
 	b.WriteString("\nend GoNfsd.Gen.Skeleton\n")
 	return b.String()
+}
+
+// genJournalObjects: the journal merges sub-block objects of concurrent transactions at commit
+// time and relies on each object being owned exclusively by the transaction that writes it; the
+// owner is the holder of a lock (inode slot, data block of a locked inode) or of an allocator
+// number (ONE bit of a bitmap).  The size of every object accessed is therefore part of the
+// locking discipline.
+func genJournalObjects() []string {
+	var out []string
+	for _, dir := range []string{"alloctxn", "inode", "fstxn", "dir", "nfs", "shrinker"} {
+		ents, err := os.ReadDir(filepath.Join(repo, dir))
+		if err != nil {
+			continue
+		}
+		var names []string
+		for _, e := range ents {
+			n := e.Name()
+			if strings.HasSuffix(n, ".go") && !strings.HasSuffix(n, "_test.go") {
+				names = append(names, n)
+			}
+		}
+		sort.Strings(names)
+		for _, n := range names {
+			fset := token.NewFileSet()
+			f, err := parser.ParseFile(fset, filepath.Join(repo, dir, n), nil, 0)
+			if err != nil {
+				fail("journal objects: %v", err)
+			}
+			for _, d := range f.Decls {
+				fd, ok := d.(*ast.FuncDecl)
+				if !ok || fd.Body == nil {
+					continue
+				}
+				ast.Inspect(fd.Body, func(x ast.Node) bool {
+					ce, ok := x.(*ast.CallExpr)
+					if !ok {
+						return true
+					}
+					se, ok := ce.Fun.(*ast.SelectorExpr)
+					if !ok || (se.Sel.Name != "OverWrite" && se.Sel.Name != "ReadBuf") || len(ce.Args) < 2 {
+						return true
+					}
+					out = append(out, fmt.Sprintf("(%s, %s, %s)", q(dir+"."+fd.Name.Name), q(se.Sel.Name), q(types.ExprString(ce.Args[1]))))
+					return true
+				})
+			}
+		}
+	}
+	return out
 }
 
 // genFlushCallers: "pkg.Func" for every function of the module that calls a method `Flush` without arguments.
